@@ -4,5 +4,7 @@
 rustc="$1"; shift
 case " $* " in
   *" --crate-name hashbrown "*) exec "$rustc" "$@" --cfg miri ;;
+  # the harness itself learns which build it is (the group width alone does not say)
+  *" --crate-name hbmc "*|*" --crate-name hbmc_sr "*|*" --crate-name hbmc-sr "*) exec "$rustc" "$@" --cfg hbmc_portable ;;
   *) exec "$rustc" "$@" ;;
 esac
